@@ -140,6 +140,8 @@ pub fn bin_matches(got: &BinVal, want: &Sem, coltype: u8) -> bool {
         // f32 written into a DOUBLE column is widened
         (BinVal::F64(a), Sem::F32(b)) => *a == (f32::from_bits(*b) as f64).to_bits(),
         (BinVal::F64(a), Sem::F64(b)) => a == b,
+        // an f64 written into a FLOAT column: exact only if the value survives the narrowing
+        (BinVal::F32(a), Sem::F64(b)) => (f32::from_bits(*a) as f64).to_bits() == *b,
         (BinVal::Bytes(a), Sem::Bytes(b)) => a == b,
         (BinVal::Date { y, mo, d, h, mi, s, us, .. }, Sem::Date(wy, wm, wd)) => (*y as i32, *mo as u32, *d as u32, *h, *mi, *s, *us) == (*wy, *wm, *wd, 0, 0, 0, 0),
         (BinVal::Date { y, mo, d, h, mi, s, us, .. }, Sem::DateTime(wy, wmo, wd, wh, wmi, ws, wus)) => {
@@ -1312,7 +1314,36 @@ pub fn run_c07(ctx: &Ctx) -> Report {
     let r = par_cases(ctx, "C07", "may", n, |rng, i, rep| {
         let e = ColumnFlags::empty();
         let u = ColumnFlags::UNSIGNED_FLAG;
-        let (ct, fl, v): (ColumnType, ColumnFlags, V) = match rng.below(11) {
+        let (ct, fl, v): (ColumnType, ColumnFlags, V) = match rng.below(14) {
+            11 => {
+                // floats of either width into either float column
+                let t = if rng.bool() { ColumnType::MYSQL_TYPE_FLOAT } else { ColumnType::MYSQL_TYPE_DOUBLE };
+                let v = match rng.below(4) {
+                    0 => V::F64(gen_f64(rng)),
+                    1 => V::F32(gen_f32(rng)),
+                    2 => V::Myc(MV::Double(gen_f64(rng))),
+                    _ => V::F64(gen_f32(rng) as f64),
+                };
+                (t, e, v)
+            }
+            12 | 13 => {
+                // temporal values into every temporal column
+                let t = *rng.pick(&[ColumnType::MYSQL_TYPE_DATE, ColumnType::MYSQL_TYPE_DATETIME, ColumnType::MYSQL_TYPE_TIMESTAMP, ColumnType::MYSQL_TYPE_TIME, ColumnType::MYSQL_TYPE_NEWDATE, ColumnType::MYSQL_TYPE_DATETIME2, ColumnType::MYSQL_TYPE_TIMESTAMP2, ColumnType::MYSQL_TYPE_TIME2]);
+                let v = match rng.below(4) {
+                    0 => V::Date(gen_date(rng)),
+                    1 => V::DateTime(gen_datetime(rng)),
+                    2 => {
+                        let d = gen_dur(rng);
+                        V::Dur(Duration::new(d.as_secs() % (35 * 86_400), d.subsec_nanos() / 1000 * 1000))
+                    }
+                    _ => {
+                        // a datetime at midnight: a DATE column could carry it exactly
+                        let d = gen_date(rng);
+                        V::DateTime(d.and_hms_opt(0, 0, 0).unwrap())
+                    }
+                };
+                (t, e, v)
+            }
             8 | 9 | 10 => {
                 // a native integer of any width into an integer column of any width and signedness:
                 // exact if accepted (what must be accepted is C15's clause)
